@@ -383,6 +383,11 @@ pub fn pathv(seed: u64, out: &mut Outcome) {
                 sim.fail("path-validated-without-matching-response", format!("node {node}: path {} became validated while handling {}: PATH_RESPONSE tokens in it {responses:?}, none of them was sent in a PATH_CHALLENGE to that address", a.path.remote, what()));
             }
         }
+        // ... and, whatever the transition (a path born validated by a migration, a flag set outside packet handling): a path
+        // the connection treats as validated leads to an address the HARNESS has seen validated
+        if a.path.validated && !o.validated_addrs[node].contains(&a.path.remote) {
+            sim.fail("path-validated-without-matching-response", format!("node {node}: path {} counts as validated after handling {} (migrated by it: {migrated}), but that address never completed a handshake with this endpoint and no PATH_RESPONSE from it echoed a PATH_CHALLENGE sent to it (addresses seen validated: {:?})", a.path.remote, what(), o.validated_addrs[node]));
+        }
         if node == SERVER {
             let since = o.path_since[node];
             if migrated {
